@@ -17,10 +17,16 @@ package appctlcommon
 
 import (
 	"fmt"
+	"math"
+	"time"
 
 	"github.com/enfein/mieru/v3/apis/constant"
 	pb "github.com/enfein/mieru/v3/pkg/appctl/appctlpb"
 )
+
+// maxQuotaDays is the largest quota window that can be represented by
+// time.Duration. A longer window overflows when the quota is checked.
+const maxQuotaDays = int64(math.MaxInt64 / (24 * time.Hour))
 
 // ValidateServerConfigSingleUser validates a single server config user.
 //
@@ -48,6 +54,9 @@ func ValidateServerConfigSingleUser(user *pb.User) error {
 	for _, quota := range user.GetQuotas() {
 		if quota.GetDays() <= 0 {
 			return fmt.Errorf("quota: number of days %d is invalid", quota.GetDays())
+		}
+		if int64(quota.GetDays()) > maxQuotaDays {
+			return fmt.Errorf("quota: number of days %d exceeds maximum value %d", quota.GetDays(), maxQuotaDays)
 		}
 		if quota.GetMegabytes() <= 0 {
 			return fmt.Errorf("quota: traffic volume in megabyte %d is invalid", quota.GetMegabytes())
